@@ -10,7 +10,7 @@ from .. import common as C
 LAYERS = ["Db"]
 
 
-def run_db(v, pid, mode, n, steps, rule, known_prefix_map=None):
+def run_db(v, pid, mode, n, steps, rule, known_prefix_map=None, extra_args=()):
     proof_ok, problems = C.standard_proof_phase(v, pid)
     if not proof_ok:
         v.violation("%s/proof-broken" % pid, "; ".join(problems),
@@ -35,7 +35,7 @@ def run_db(v, pid, mode, n, steps, rule, known_prefix_map=None):
         so = os.path.join(out, "shard%d" % k)
         os.makedirs(so, exist_ok=True)
         procs.append((so, subprocess.Popen([C.harness_bin("db"), "-out", so, "-n", str(n), "-steps", str(steps), "-seed", str(v.seed),
-                                            "-mode", mode, "-shard", str(k), "-shards", str(shards)],
+                                            "-mode", mode, "-shard", str(k), "-shards", str(shards)] + list(extra_args),
                                            stdout=subprocess.PIPE, stderr=subprocess.STDOUT)))
     stats = {"cases": 0, "classes": {}, "samples": [], "impl_violations": [],
              "extra": {"acks": 0, "restores": 0, "sync_steps": 0, "histories": 0, "distinct_histories": 0,
